@@ -26,7 +26,7 @@ def main():
     cand = os.path.abspath(sys.argv[1])
     res = {'candidate': cand}
     wt = tempfile.mkdtemp(prefix='ref_eval_wt_'); os.rmdir(wt)
-    sh('git -C /repo worktree add -q %s HEAD' % wt)
+    sh('git -C /repo worktree add -q --detach %s %s' % (wt, os.environ.get('REF_EVAL_BASE', 'HEAD')))
     try:
         env = {'PYTHONPATH': wt}
         rc0, out0 = sh('/venv/bin/python %s' % os.path.join(cand, 'equiv.py'), cwd=wt, env=env, timeout=1500)
